@@ -5,20 +5,20 @@ CONSTANTS
   RecHdr = 1
   BatchHdr = 1
   Queues = {0, 1}
-  MaxOps = 4
-  MaxPost = 1
-  MaxCrashes = 1
+  MaxOps = 8
+  MaxPost = 3
+  MaxCrashes = 3
   Policy = "always_flush"
   LossModels = {"process"}
   GcAlwaysSyncs = TRUE
   OpenSizesLast = TRUE
   PayLens = {2, 9}
   BatchSizes = {1, 2}
-  AllowExplicit = FALSE
+  AllowExplicit = TRUE
   MaxDamage = 0
   DamageKinds = {}
   CrcQuarantinesBlock = FALSE
-  MinOpsBeforeCrash = 0
+  MinOpsBeforeCrash = 5
 INIT MCInit
 NEXT MCNext
 INVARIANTS VerdictOk Refines NextAboveAssigned BatchAtomic FilesBound BytesTrack BufInv ZerosAhead
